@@ -69,8 +69,9 @@ class ArgumentList:
         if isinstance(code, str):
             if re.match(r"\S", code) and not re.match(r",\s*$", code):
                 # if theres text and no trailing comma, insure its parsed
-                # as a tuple by adding a trailing comma
-                code += ","
+                # as a tuple by adding a trailing comma; on a line of its
+                # own, as the text may end with a comment
+                code = "(" + code + "\n,)"
             expr = pyparser.parse(code, "exec", **exception_kwargs)
         else:
             expr = code
